@@ -13,6 +13,7 @@ import (
 	"context"
 	"crypto/rand"
 
+	dtlsconfig "github.com/pion/dtls/v3/internal/config"
 	dtlsflight "github.com/pion/dtls/v3/internal/flight"
 	"github.com/pion/dtls/v3/pkg/crypto/prf"
 	"github.com/pion/dtls/v3/pkg/protocol"
@@ -232,7 +233,7 @@ func zzResumeServerFin() {
 // Conn.notify afterwards, and notify deletes the stored session only for a connection that has a session id
 // (zzFatalDropsSession): together "a session on which the client sent a fatal alert is no longer offered".
 //
-//symgo:entry covers=client_abort_keeps_id_for_invalidation,client_accepts
+//symgo:entry covers=client_abort_keeps_id_for_invalidation,client_accepts,client_abort_missing_ems
 func zzClientAbortLeavesSessionIDForNotify() {
 	rand.Reader = zzConstReader{}
 	client := zzNewPeer(true)
@@ -241,6 +242,12 @@ func zzClientAbortLeavesSessionIDForNotify() {
 	store.attach(client.cfg)
 	id, secret := zzsymBytes("stored_id", 2), zzsymBytes("stored_secret", 2)
 	store.put(zzClientKey, id, secret)
+	// second cause of a client abort on this path (seed C14k-2): the client REQUIRES the extended master secret and
+	// the resuming ServerHello does not carry the extension - fatal insufficient_security before any Finished check
+	requireEMS := zzsymChoice("client_requires_ems", 2) == 1
+	if requireEMS {
+		client.cfg.ExtendedMasterSecret = dtlsconfig.RequireExtendedMasterSecret
+	}
 	server := zzNewPeer(false) // only a cache to receive the ClientHello
 	if _, a, err := zzSend(client, server, Flight1, nil); a != nil || err != nil {
 		zzsymFail("client_hello_failed")
@@ -259,12 +266,17 @@ func zzClientAbortLeavesSessionIDForNotify() {
 
 	next, a, err := zzRecv(client, Flight1)
 	if a = zzAlertOf(a, err); a == nil && err == nil {
+		zzsymAssert(!requireEMS, "client_requiring_ems_never_resumes_without_it")
 		zzsymAssert(next == Flight5b, "accepted_means_flight5b")
 		zzsymCover("client_accepts")
 
 		return
 	}
 	zzsymAssert(a != nil && a.Level == alert.Fatal, "client_abort_is_fatal")
+	if requireEMS {
+		zzsymAssert(a.Description == alert.InsufficientSecurity, "missing_ems_is_insufficient_security")
+		zzsymCover("client_abort_missing_ems")
+	}
 	zzsymAssert(zzsymEqBytes(client.state.SessionID, id), "aborting_client_still_names_the_session_for_notify")
 	zzsymAssert(len(store.setKeys) == 0, "aborting_client_stores_nothing")
 	zzsymCover("client_abort_keeps_id_for_invalidation")
